@@ -14,10 +14,10 @@ const pageSize = 4096
 const canaryByte = 0xA5
 
 type cbuf struct {
-	region []byte         // whole mapping
-	ptr    unsafe.Pointer // first byte of the caller's buffer
-	nbytes int
-	lo, hi int // [lo,hi) offset of the buffer in region
+	region      []byte         // whole mapping
+	ptr         unsafe.Pointer // first byte of the caller's buffer
+	nbytes      int
+	lo, hi      int // [lo,hi) offset of the buffer in region
 	guardBefore bool
 }
 
